@@ -108,8 +108,8 @@ fn run_reentered(c: &Cfg) -> Result<(usize, String), String> {
     let sc = Arc::new(sc);
     let mut ctx = EntryContext::new();
     ctx.set_resource(ResourceWrapper::new("c13-res".into(), ResourceType::Common, TrafficType::Outbound));
-    let ctx = Arc::new(std::sync::RwLock::new(ctx));
-    let entry = Arc::new(std::sync::RwLock::new(SentinelEntry::new(ctx.clone(), sc.clone())));
+    let ctx = Arc::new(sentinel_verif_rt::sync::RwLock::new(ctx));
+    let entry = Arc::new(sentinel_verif_rt::sync::RwLock::new(SentinelEntry::new(ctx.clone(), sc.clone())));
     ctx.write().unwrap().set_entry(Arc::downgrade(&entry));
     let blockers = c.checks.iter().filter(|x| matches!(x.1, Res::BlockFlow | Res::BlockOther)).count();
     let r0 = sc.entry(ctx.clone());
